@@ -70,6 +70,7 @@ func init() {
 	})
 	register(&PropConfig{
 		ID:         "C12",
+		Replay:     replayC12,
 		Packages:   []string{"."},
 		Corpus:     true,
 		CorpusOnly: []string{"test_script_usage", "test_script_usage_nonce", "test_script_inline", "test_js_usage", "test_js_unsafe_usage", "test_css_usage", "test_css_middleware", "test_css_expression", "test_once", "test_complex_attributes", "test_only_scripts", "test_call"},
